@@ -563,3 +563,187 @@ func VerifLemma_C14C_Copy() {
 	}
 	vcCheckStateExt(from, m1, "1:", "after Copy (source)")
 }
+
+// ---- nested union / overlay (added after seeded change C14-r2m2: flattening nested multi buckets) ----
+
+// vcOneObjBucket: a bucket holding 0..1 object at an arbitrary validated path; external path tag+path.
+func vcOneObjBucket(tag string) (*bucket, refCModel) {
+	objs := make(map[string]*internal.ImmutableObject)
+	var m refCModel
+	if verifNondetBool() {
+		p := vcShapePath(verifParam("PATH"))
+		d := verifNondetStringN(1)
+		m = append(m, refCObj{path: p, data: d, present: true})
+		objs[p] = internal.NewImmutableObject(p, tag+p, "", []byte(d))
+	}
+	return newBucket(objs), m
+}
+
+func vcCombine(overlay bool, x, y storage.ReadBucket) storage.ReadBucket {
+	if overlay {
+		return storage.OverlayReadBucket(x, y)
+	}
+	return storage.MultiReadBucket(x, y)
+}
+
+// refCResolve composes the two documented rules for one key over two sources, each already resolved to
+// (tag of the winning member or "", duplicate error): union: present in both => duplicate error; overlay: first wins;
+// a duplicate error of a nested member is an error of the composition in both modes (it is not a not-exist error).
+func refCResolve(overlay bool, tagX string, dupX bool, tagY string, dupY bool) (string, bool) {
+	if dupX {
+		return "", true
+	}
+	if tagX != "" {
+		if overlay {
+			return tagX, false
+		}
+		if tagY != "" || dupY {
+			return "", true
+		}
+		return tagX, false
+	}
+	if dupY {
+		return "", true
+	}
+	return tagY, false
+}
+
+func vcTagOf(m refCModel, tag, key string) string {
+	if m.find(key) >= 0 {
+		return tag
+	}
+	return ""
+}
+
+// VerifLemma_C14C_NestedUnion: Outer(Inner(a,b), c) and Outer(c, Inner(a,b)) for Outer, Inner in {Multi, Overlay}
+// over three memory buckets (0..1 object each, paths may coincide) agree with the reference obtained by composing
+// the union rule and the overlay rule - on Get, Stat and Walk.
+func VerifLemma_C14C_NestedUnion() {
+	ctx := context.Background()
+	a, ma := vcOneObjBucket("1:")
+	b, mb := vcOneObjBucket("2:")
+	c, mc := vcOneObjBucket("3:")
+	innerOverlay := verifNondetBool()
+	outerOverlay := verifNondetBool()
+	innerFirst := verifNondetBool()
+	inner := vcCombine(innerOverlay, a, b)
+	var view storage.ReadBucket
+	if innerFirst {
+		view = vcCombine(outerOverlay, inner, c)
+	} else {
+		view = vcCombine(outerOverlay, c, inner)
+	}
+	s := verifNondetString(verifParam("ARG"))
+	key, valid := refCKey(s)
+	verifCover("buckets and argument")
+	// reference resolution of one key
+	resolve := func(k string) (string, bool) {
+		ti, di := refCResolve(innerOverlay, vcTagOf(ma, "1:", k), false, vcTagOf(mb, "2:", k), false)
+		tc := vcTagOf(mc, "3:", k)
+		if innerFirst {
+			return refCResolve(outerOverlay, ti, di, tc, false)
+		}
+		return refCResolve(outerOverlay, tc, false, ti, di)
+	}
+	dataOf := func(tag, k string) string {
+		switch tag {
+		case "1:":
+			return ma[ma.find(k)].data
+		case "2:":
+			return mb[mb.find(k)].data
+		}
+		return mc[mc.find(k)].data
+	}
+	switch verifNondetChoice(3) {
+	case 0, 1:
+		isGet := verifNondetBool()
+		var oi storage.ObjectInfo
+		var err error
+		content := ""
+		if isGet {
+			var roc storage.ReadObjectCloser
+			roc, err = view.Get(ctx, s)
+			if err == nil {
+				oi = roc
+				content = vcReadAll(roc)
+			}
+		} else {
+			oi, err = view.Stat(ctx, s)
+		}
+		if !valid || key == "." {
+			verifAssert(err != nil, "nested union Get/Stat: invalid or root path is an error")
+			break
+		}
+		tag, dup := resolve(key)
+		switch {
+		case dup:
+			verifCover("nested duplicate")
+			verifAssert(err != nil && storage.IsExistsMultipleLocations(err) && !storage.IsNotExist(err), "nested union Get/Stat: a duplicate that the composed rules report is reported")
+		case tag == "":
+			verifAssert(err != nil && storage.IsNotExist(err), "nested union Get/Stat: path in no member gives a not-exist error")
+		default:
+			verifCover("nested resolved")
+			verifAssert(err == nil, "nested union Get/Stat: a path the composed rules resolve succeeds (no spurious duplicate error)")
+			if err == nil {
+				verifAssert(oi.Path() == key && oi.ExternalPath() == tag+key, "nested union Get/Stat: the object comes from the member the composed rules select")
+				if isGet {
+					verifAssert(content == dataOf(tag, key), "nested union Get: content is the selected member's")
+				}
+			}
+		}
+	case 2:
+		var visited, external []string
+		err := view.Walk(ctx, s, func(oi storage.ObjectInfo) error {
+			visited = append(visited, oi.Path())
+			external = append(external, oi.ExternalPath())
+			return nil
+		})
+		if !valid {
+			verifAssert(err != nil && len(visited) == 0, "nested union Walk: invalid prefix is an error")
+			break
+		}
+		// candidate keys: the (at most three) object paths under the prefix
+		var keys []string
+		add := func(m refCModel) {
+			if len(m) == 1 && refCContains(key, m[0].path) {
+				for _, k := range keys {
+					if k == m[0].path {
+						return
+					}
+				}
+				keys = append(keys, m[0].path)
+			}
+		}
+		add(ma)
+		add(mb)
+		add(mc)
+		anyDup := false
+		for _, k := range keys {
+			if _, dup := resolve(k); dup {
+				anyDup = true
+			}
+			// Walk visits every member: a duplicate inside the nested *union* is reported even when an earlier
+			// overlay member shadows that path for Get/Stat ("reports, rather than hides")
+			if _, innerDup := refCResolve(innerOverlay, vcTagOf(ma, "1:", k), false, vcTagOf(mb, "2:", k), false); innerDup {
+				anyDup = true
+			}
+		}
+		if anyDup {
+			verifCover("nested Walk duplicate")
+			verifAssert(err != nil && storage.IsExistsMultipleLocations(err), "nested union Walk: a duplicate under the prefix that the composed rules report is reported")
+			break
+		}
+		verifAssert(err == nil, "nested union Walk: succeeds when the composed rules resolve every path (no spurious duplicate error)")
+		verifAssert(len(visited) == len(keys), "nested union Walk: visits every path under the prefix exactly once")
+		for i := range visited {
+			tag, _ := resolve(visited[i])
+			verifAssert(tag != "" && refCContains(key, visited[i]) && external[i] == tag+visited[i], "nested union Walk: each visited object is the one the composed rules select")
+			for j := 0; j < i; j++ {
+				verifAssert(visited[j] != visited[i], "nested union Walk: no path is visited twice")
+			}
+		}
+	}
+	vcCheckStateExt(a, ma, "1:", "after nested union read (a)")
+	vcCheckStateExt(b, mb, "2:", "after nested union read (b)")
+	vcCheckStateExt(c, mc, "3:", "after nested union read (c)")
+}
